@@ -42,6 +42,35 @@ def relevant_axioms(axioms, terms):
     return chosen
 
 
+def purify(exprs):
+    """replace every uninterpreted-function application by a fresh constant (same application -> same constant).
+    Forgets congruence only, so unsat of the purified formula implies unsat of the original."""
+    cache = {}
+    names = {}
+
+    def rw(t):
+        tid = t.get_id()
+        hit = cache.get(tid)
+        if hit is not None:
+            return hit
+        if z3.is_quantifier(t) or not z3.is_app(t) or t.num_args() == 0:
+            r = t
+        else:
+            ch = [rw(c) for c in t.children()]
+            changed = any(not c.eq(o) for c, o in zip(ch, t.children()))
+            u = t.decl()(*ch) if changed else t
+            if t.decl().kind() == z3.Z3_OP_UNINTERPRETED:
+                key = u.sexpr()
+                r = names.get(key)
+                if r is None:
+                    r = names[key] = z3.Const(f"uf!{len(names)}", t.sort())
+            else:
+                r = u
+        cache[tid] = r
+        return r
+    return [rw(e) for e in exprs]
+
+
 def _check(hyps, neg_goal, timeout_ms, strategy, seed=0):
     t0 = time.time()
     if strategy == "nlsat":
@@ -70,6 +99,15 @@ def prove(hyps, goal, budget_s=20.0, want_model=True):
     neg = z3.Not(goal)
     uf = T.has_uf(list(hyps) + [goal])
     plan = []
+    if uf:
+        # purified attempt first: pure nonlinear real arithmetic, decided by nlsat
+        try:
+            ph = purify(list(hyps) + [neg])
+            r, m, dt = _check(ph[:-1], ph[-1], min(budget_s, 3.0) * 1000, "nlsat")
+            if r == "unsat":
+                return "unsat", None, "z3-nlsat(purified)", dt
+        except z3.Z3Exception:
+            pass
     if not uf:
         plan.append(("nlsat", min(budget_s, 2.0)))
     plan.append(("default", min(budget_s, 2.0)))
